@@ -96,9 +96,14 @@ static inline bool substitute_element(Rep& R, std::vector<uint8_t>& buf, size_t 
     else if (kind == "isocurve") { if (comp || !iso_scale_uncompressed(e, 2 + seed % 5)) return false; }
     else if (kind == "wrongsub") { std::vector<uint8_t> xb; Buf a; if (!rand_curve_point(false, xb, a)) return false;
         if (seed & 1) cofactor_part(R, g, a);   // every other time the point lies entirely in the cofactor part: T = [r]Q (its order divides the cofactor)
+        else if (g == 1 && (seed & 2)) {
+            // ... or it is the ORIGINAL element plus the point (0, 2) of order 3: off the subgroup by the smallest possible amount (a test that folds several
+            // elements into one combination before multiplying by r loses it whenever the element's weight is a multiple of 3)
+            Buf e0(R.sz(JV_SZ_G1A)); if (R.jv_g1_unmarshal(1, e0, orig.data(), comp, 0)) { uint8_t t3[96] = {0}; t3[95] = 2; Buf t(R.sz(JV_SZ_G1A)); R.jv_g1a_set_xy(t, t3, 0); G1v p, sum; R.jv_g1_from_affine(1, p.b, e0); R.jv_g1_add_mixed(1, sum.b, p.b, t); R.jv_g1affine_from_projective(1, a, sum.b); }
+        }
         e = model_encode(mpoint_of_affine(R, g, a), comp); }
     else if (kind == "xnoy") { if (!comp) return false; std::vector<uint8_t> xb; Buf a; if (!rand_curve_point(true, xb, a)) return false; e = xb; e[0] |= FL_COMPRESSED; }
-    else if (kind == "badinf") { std::fill(e.begin(), e.end(), 0); e[0] = FL_INFINITY | (comp ? FL_COMPRESSED : 0); int v = (int) (seed % 6); if (v == 5) e[0] = (uint8_t) (FL_INFINITY | (comp ? 0 : FL_COMPRESSED)); /* the identity, all payload bits zero, announced in the other form */ else if (v == 0) e[n - 1] = 1; else if (v == 1) e[0] |= FL_GREATER; else if (v == 2) e[n / 2] = 0x10; else { uint8_t qb[48]; K().q.to_be(qb, 48); size_t ns = n / 48; for (size_t sl = (v == 3 ? ns - 1 : 0); sl < ns; sl++) for (size_t i = 0; i < 48; i++) e[sl * 48 + i] |= qb[i]; } }
+    else if (kind == "badinf") { std::fill(e.begin(), e.end(), 0); e[0] = FL_INFINITY | (comp ? FL_COMPRESSED : 0); int v = (int) (seed % 7); if (v == 6) { if (n < 96) return false; e[48 * (1 + (seed / 7) % (n / 48 - 1))] |= (uint8_t) (0x20u << ((seed / 49) % 3)); } /* payload = one of the three top bits of a LATER coordinate's first byte */ else if (v == 5) e[0] = (uint8_t) (FL_INFINITY | (comp ? 0 : FL_COMPRESSED)); /* the identity, all payload bits zero, announced in the other form */ else if (v == 0) e[n - 1] = 1; else if (v == 1) e[0] |= FL_GREATER; else if (v == 2) e[n / 2] = 0x10; else { uint8_t qb[48]; K().q.to_be(qb, 48); size_t ns = n / 48; for (size_t sl = (v == 3 ? ns - 1 : 0); sl < ns; sl++) for (size_t i = 0; i < 48; i++) e[sl * 48 + i] |= qb[i]; } }
     else if (kind == "inftail") { e[0] |= FL_INFINITY; }
     else if (kind == "zero") { std::fill(e.begin(), e.end(), 0); if (false) {} }
     else if (kind == "ff") std::fill(e.begin(), e.end(), 0xFF);
